@@ -284,6 +284,37 @@ pub fn c16_variants(tier: &str, words: &[u32]) -> Vec<Variant> {
         let l = if th { lim(6, 6, 10_000_000, 900.0) } else { lim(4, 4, 1_500_000, 10.0) };
         out.push(Variant { spec: s, lim: l });
     }
+    // More members than a Feed can list in a tight packet: whatever a Feed
+    // reply (or any other member selection) leaves behind in scratch buffers
+    // must not leak into the next broadcast(). Lean alphabet, own variant.
+    for (mask, packet) in [(1u8 << B, 20usize), (0, 22)] {
+        let me = id(A, 1).with(Renew::None);
+        let cfg = Cfg { max_tx: 3, max_packet: packet, fanout: 2, ..Cfg::default() };
+        let mut s = CoreSpec::new(&format!("c16-feed-leftover-mask{mask}-pkt{packet}"), me, cfg);
+        // up to 4 draws per call here: a menu that covers every outcome of
+        // every random_range(0..n), n <= 6, but not every shuffle
+        let lean = crate::rng::menu(6, 0);
+        s.words = if crate::rng::calibrate(&lean, 6, 0).is_ok() { lean } else { words.to_vec() };
+        s.mons.c16 = true;
+        s.handler = TableHandler::new(InvMode::Never);
+        s.handler.deny_mask = mask;
+        let it = |k: u8, v: u8| vec![k, v, 0xAB];
+        s.alpha = Alpha {
+            srcs: vec![(id(B, 0), 0, true), (id(6, 0), 0, false)],
+            kinds: vec![Kind::Announce, Kind::Gossip, Kind::Ping, Kind::PingReq(id(C, 0))],
+            payload_kinds: vec![Kind::Gossip],
+            payloads: vec![vec![], vec![mm(id(C, 0), 0, State::Down)]],
+            api: vec![Ev::AddBroadcast(it(0, 1)), Ev::AddBroadcast(it(1, 1)), Ev::Broadcast, Ev::Gossip],
+            ..Alpha::default()
+        };
+        s.seed_hists.push(seed(&s, |sb| {
+            sb.ev(Ev::Apply(vec![al(id(B, 0)), al(id(C, 0)), al(id(D, 0)), al(id(4, 0)), al(id(5, 0))], false));
+            sb.ev(Ev::AddBroadcast(it(2, 1)));
+            sb.ev(Ev::AddBroadcast(it(3, 1)));
+        }));
+        let l = if th { lim(5, 5, 6_000_000, 600.0) } else { lim(3, 3, 1_000_000, 15.0) };
+        out.push(Variant { spec: s, lim: l });
+    }
     out
 }
 
